@@ -280,9 +280,23 @@ pub fn main(args: &[String]) -> i32 {
     }
     let mut results: Vec<Option<J>> = vec![None; total];
     for h in handles {
-        for (i, r) in h.join().unwrap_or_default() {
-            results[i] = Some(r);
+        match h.join() {
+            Ok(rs) => {
+                for (i, r) in rs {
+                    results[i] = Some(r);
+                }
+            }
+            Err(_) => {
+                // the harness itself failed (e.g. its executable could not be re-executed): a tool error,
+                // never an observation about the code under test
+                eprintln!("xp-total: a worker thread of the harness died");
+                return 2;
+            }
         }
+    }
+    if results.iter().any(|r| r.is_none()) {
+        eprintln!("xp-total: missing results");
+        return 2;
     }
 
     let mut w = open_out(trace);
